@@ -1,0 +1,41 @@
+//go:build verif
+
+package gojq
+
+// Verification hooks for the allocator-taking natives (C02 item 4, C05, C06).
+// Add-only: nothing here is reachable without the build tag verif, and no
+// existing declaration is changed. The compiler calls these natives from the
+// hand-assembled bytecode of `_assign` and `_modify` only, so they are not in
+// the native function table returned by VerifNatives.
+
+// VerifAllocator returns a new, empty allocator (what `_allocator` pushes).
+func VerifAllocator() any { return allocator{} }
+
+// VerifSetpathAlloc is `_setpath`: setpath(v, p, n) licensed to update in
+// place the arrays and objects registered in the allocator a.
+func VerifSetpathAlloc(v, p, n, a any) any {
+	return funcSetpathWithAllocator(v, []any{p, n, a})
+}
+
+// VerifGetpathAlloc is the getpath of `_modify`: getpath(v, p) whose result
+// is released from the allocator a (and copied when p ends with a slice).
+func VerifGetpathAlloc(v, p, a any) any {
+	return funcGetpathWithAllocator(v, []any{p, a})
+}
+
+// VerifDelpathsAlloc is `_delpaths`: delpaths(v, ps) with the allocator a.
+func VerifDelpathsAlloc(v, ps, a any) any {
+	return funcDelpathsWithAllocator(v, []any{ps, a})
+}
+
+// VerifAllocated reports whether the array or object v is registered in a.
+func VerifAllocated(a, v any) bool {
+	switch v.(type) {
+	case []any, map[string]any:
+		return a.(allocator).allocated(v)
+	}
+	return false
+}
+
+// VerifAllocatorSize is the number of registered addresses.
+func VerifAllocatorSize(a any) int { return len(a.(allocator)) }
